@@ -103,9 +103,15 @@ def loop_table(F, f):
     return table, rec.level
 
 
+def all_ops(F):
+    """the reviewed bulk operations plus every other provided Input method that consumes and answers a count (rules/C12.derived_consumers)"""
+    from . import C12
+    return tuple(OPS) + tuple(sorted(nm for nm, kind in C12.derived_consumers(F).items() if kind == "bulk" and nm not in OPS))
+
+
 def check(rep, F, rule="bulk-operation-agreement"):
     n = 0
-    for nm in OPS:
+    for nm in all_ops(F):
         ov, df = F.fns.get(STR + nm), F.fns.get(INPUT + "::" + nm)
         if ov is None or df is None:
             rep.ok(rule, nm, "no override" if ov is None else "no default")
@@ -127,7 +133,7 @@ def check(rep, F, rule="bulk-operation-agreement"):
         hi = hi.pop()
         if to is None or lo is None:
             # no loop of its own: a one-argument test handed to an iterator adaptor
-            UNIT_TYS = ("u8", "&u8", "char", "&char", "(usize, char)", "&(usize, char)", "(usize, u8)", "&(usize, u8)")
+            UNIT_TYS = ("u8", "&u8", "&&u8", "char", "&char", "(usize, char)", "&(usize, char)", "(usize, u8)", "&(usize, u8)")
             tests = [g for g in F.closures_of(ov.key) if g.arg_count == 2 and g.locals[0]["ty"] == "bool" and g.locals[2]["ty"] in UNIT_TYS]
             ok = False
             det = []
@@ -137,7 +143,9 @@ def check(rep, F, rule="bulk-operation-agreement"):
                     for c in range(256):
                         ty = g.locals[2]["ty"]
                         unit = ("tuple", 0, c) if "(" in ty else c
-                        if fold.Folder(F).call(g.key, [("zst",), ("ref", unit) if ty.startswith("&") else unit]):
+                        for _ in range(len(ty) - len(ty.lstrip("&"))):
+                            unit = ("ref", unit)
+                        if fold.Folder(F).call(g.key, [("zst",), unit]):
                             acc.add(c)
                 except (fold.Unsupported, fold.Diverged) as ex:
                     det.append("%s: %s" % (short(g.key), ex))
@@ -160,4 +168,59 @@ def check(rep, F, rule="bulk-operation-agreement"):
                 wrong.append("%s: override %s, provided body %s" % (("byte 0x%02X" % c) if lo == "byte" else "U+%04X" % c, to.get(c), want))
         rep.check(not wrong, rule, nm, "StrInput::%s and the provided body disagree on where to stop: %s" % (nm, "; ".join(wrong[:5])), site=ov.span,
                   detail={"units": len(dom), "level": lo, "disagreements": len(wrong)})
+    return n
+
+
+BYTE_OFFSET_PRODUCERS = ("str::len", "str::find", "str::as_bytes", "str::as_ptr", "offset_from", "char_indices", "Bytes as", "str::bytes", "[T]::len", "memchr")
+
+
+def count_unit(rep, F, rule="bulk-count-is-in-characters"):
+    """What skip_while_non_breakz / skip_while_blank / fetch_while_is_alpha return is added by the scanner to the cursor's index and
+    column, which count characters (C12).  When the run the operation walks over can hold non-ASCII text (the provided body goes on at a
+    non-ASCII character), the StrInput override has to count characters: a loop over bytes, a byte-level iterator adaptor, or a result
+    computed from byte offsets (str::len, str::find, char_indices, pointer differences) reports bytes.  When the run is ASCII by
+    construction (the provided body stops at every non-ASCII character) both counts coincide and any form is accepted."""
+    n = 0
+    for nm in all_ops(F):
+        ov, df = F.fns.get(STR + nm), F.fns.get(INPUT + "::" + nm)
+        if ov is None or df is None or ov.locals[0]["ty"] != "usize":
+            continue
+        try:
+            tp, lp = loop_table(F, df)
+        except (Unknown, fold.Unsupported, fold.Diverged, RuntimeError) as ex:
+            rep.incomplete("cannot tabulate the provided body of %s: %s" % (nm, ex), df.span)
+            continue
+        if tp is None:
+            rep.incomplete("the provided body of %s has no loop over the character at the cursor" % nm, df.span)
+            continue
+        hi = {tp[c] for c in fold.ALPHABET if c > 127}
+        n += 1
+        if hi == {"stop"}:
+            rep.ok(rule, nm, "the run is ASCII by construction")
+            continue
+        why = []
+        try:
+            to, lo = loop_table(F, ov)
+        except (Unknown, fold.Unsupported, fold.Diverged, RuntimeError) as ex:
+            to, lo = None, None
+        if to is not None and lo == "byte":
+            why.append("its loop advances one byte per round")
+        if to is None:
+            for g in F.closures_of(ov.key):
+                if g.arg_count == 2 and g.locals[0]["ty"] == "bool" and g.locals[2]["ty"] in ("u8", "&u8", "(usize, char)", "&(usize, char)", "(usize, u8)", "&(usize, u8)"):
+                    why.append("it hands a test on %s to an iterator adaptor" % g.locals[2]["ty"])
+        # the returned value
+        rets = []
+        for bi, si, s in cfg.stmts(ov):
+            if s["k"] == "assign" and s["lhs"]["l"] == 0 and not s["lhs"]["p"]:
+                rets.append(cfg.expr_str(cfg.expr_operand(ov, s["rv"]["a"], 10)) if s["rv"]["k"] == "use" else "?")
+        for bb, t, ck, fr in ov.calls():
+            if t["dest"] is not None and t["dest"]["l"] == 0 and not t["dest"]["p"]:
+                rets.append("%s(%s)" % (ck, ", ".join(cfg.expr_str(cfg.expr_operand(ov, a, 10)) for a in t["args"])))
+        for r in rets:
+            hit = [x for x in BYTE_OFFSET_PRODUCERS if x in r]
+            if hit:
+                why.append("the value it returns is computed from %s" % " / ".join(hit))
+        rep.check(not why, rule, nm, "StrInput::%s can walk over non-ASCII text and reports a number of bytes where the scanner adds a number of characters to the "
+                  "cursor's index and column: %s" % (nm, "; ".join(why)), site=ov.span, detail={"returned": [r[:200] for r in rets]})
     return n
